@@ -53,7 +53,9 @@ StatusVerdict(st, dt) ==
 (* stage 1: the head *)
 HeadV(s) ==
   IF s.status # 200 THEN
-     IF UnaryConnect(s) /\ s.cerr = "valid" THEN Exact(5)
+     \* (an encoding the client does not know makes the body unreadable: no valid protocol-level error, the status decides)
+     IF s.enc = "unknown" THEN Exact(HTTPToCode(s))
+     ELSE IF UnaryConnect(s) /\ s.cerr = "valid" THEN Exact(5)
      ELSE IF UnaryConnect(s) /\ s.cerr = "code99" THEN [ok |-> {FALSE}, codes |-> {99, HTTPToCode(s)}, any |-> FALSE]
      ELSE Exact(HTTPToCode(s))
   ELSE IF s.enc = "unknown" THEN AnyErr
